@@ -1,5 +1,5 @@
 """C14 — table cache and lou_free: compile once, isolate lists, release everything."""
-import itertools, random
+import itertools, random, re
 from .. import common
 
 THEOREMS = [
@@ -53,12 +53,15 @@ def table_files(p):
         p + "a.ct": base.replace("sign a 1\n", "sign a 16\n"),
         p + "b.ctb": "always de 123456\nsign y 13456\nnoback pass2 @123456 @123456-1\nnofor pass2 @123456-1 @123456\n",
         p + "bad.ctb": "sign a 1\nnonsense x 1\nsign b 12\n",
+        # a table that includes itself: refused at the nesting limit (C13-F1), after 51 openings; nothing of the failed
+        # attempt may linger - a later table with an include (a.ctb) must still load
+        p + "self.ctb": "sign a 1\ninclude %sself.ctb\n" % p,
     }
 
 
 LISTS = {
     "A": "{p}a.ctb", "AP": "{p}a.ct", "AB": "{p}a.ctb,{p}b.ctb", "B2": "{p}a.ct,{p}b.ctb",
-    "BAD": "{p}bad.ctb", "MISS": "{p}miss.ctb", "ABAD": "{p}a.ctb,{p}bad.ctb",
+    "BAD": "{p}bad.ctb", "MISS": "{p}miss.ctb", "ABAD": "{p}a.ctb,{p}bad.ctb", "SELF": "{p}self.ctb",
 }
 GOOD = {"A", "AP", "AB", "B2"}
 # the last rule makes a table without a hyphenation dictionary grow by 250000 bytes: the block moves and
@@ -88,6 +91,8 @@ def opened_by(L, p):
             out.append(p + "hy.dic")
         if s == p + "bad.ctb":
             return out, False
+        if s == p + "self.ctb":
+            return out + [s] * 50, False
     return out, True
 
 
@@ -282,6 +287,10 @@ def evaluate(v, cases, refs, stats):
         if leak:
             viol("C14:leak:%s" % leak.get("frame", "?"), "LeakSanitizer: memory allocated in %s is unreachable at exit, after "
                  "lou_free; history %s" % (leak.get("frame"), [" ".join(map(str, o)) for o in ops]))
+        mfd = re.search(r"fdleak=(-?\d+)", c.out[-1])
+        if mfd and int(mfd.group(1)) > 0:
+            viol("C14:fd-leak", "%s file descriptor(s) opened by the library are still open after lou_free (a stream is not "
+                 "memory LeakSanitizer reports: libc keeps every FILE reachable); history %s" % (mfd.group(1), [" ".join(map(str, o)) for o in ops]))
         outs = [c.out[2 * i] for i in range(len(ops))]
         opens = [parse_opens(c.out[2 * i + 1]) for i in range(len(ops))]
         stats["ops"] += len(ops)
